@@ -59,12 +59,14 @@ func (c *JobCfg) defaults() {
 }
 
 type Job struct {
-	ID    string   `json:"id"`
-	Entry string   `json:"entry"` // "pkgpath.Func"
-	Setup string   `json:"setup"` // optional, decision-free
-	Cfg   JobCfg   `json:"cfg"`
-	Reach []string `json:"reach"` // labels that must be reached on some path (vacuity guard)
-	Tags  []string `json:"tags"`
+	ID        string      `json:"id"`
+	Entry     string      `json:"entry"` // "pkgpath.Func"
+	Setup     string      `json:"setup"` // optional, decision-free
+	Cfg       JobCfg      `json:"cfg"`
+	Reach     []string    `json:"reach"`      // labels that must be reached on some path (vacuity guard)
+	Fixed     []NondetVal `json:"fixed"`      // concrete mode: run once with these nondet values (translator validation)
+	FixedSeed uint64      `json:"fixed_seed"` // concrete mode with pseudo-random values
+	Tags      []string    `json:"tags"`
 }
 
 type JobResult struct {
@@ -91,6 +93,8 @@ type JobResult struct {
 	Models       map[string]int `json:"models"`
 	Nondets      int            `json:"max_nondets"`
 	Sample       []string       `json:"sample_path,omitempty"`
+	Observed     []string       `json:"observed,omitempty"`
+	FailedChecks []string       `json:"failed_checks,omitempty"`
 }
 
 type baseState struct {
@@ -185,6 +189,7 @@ func (m *Machine) restore(b *baseState, epoch int) {
 	m.poolPolicy = m.cfg.PoolPolicy
 	m.allocBytes = m.ctx.Const(0, 64)
 	m.lastPanic = ""
+	m.phase = ""
 }
 
 // runInits executes the package initialisers we model from source.
@@ -299,6 +304,15 @@ func runJob(P *Program, job *Job) (res *JobResult) {
 		m.restore(base, epoch)
 		m.prefix = prefix
 		m.reached = map[string]bool{}
+		m.observed = nil
+		if job.Fixed != nil || job.FixedSeed != 0 {
+			m.fixedSeed = job.FixedSeed
+			m.fixed = job.Fixed
+			if len(m.fixed) == 0 {
+				m.fixed = []NondetVal{}
+			}
+			m.fixedPos = 0
+		}
 		status, msg := m.guarded(func() {
 			m.callFunction(entry, nil, nil)
 		})
@@ -336,6 +350,13 @@ func runJob(P *Program, job *Job) (res *JobResult) {
 			}
 		}
 		work = append(work, m.pending...)
+		if job.Fixed != nil || job.FixedSeed != 0 {
+			res.Observed = m.observed
+			res.FailedChecks = append(res.FailedChecks, "status:"+status)
+			for _, v := range m.violations {
+				res.FailedChecks = append(res.FailedChecks, v.Kind+":"+v.Label)
+			}
+		}
 		if res.Paths == 1 {
 			for _, n := range m.nondets {
 				if len(res.Sample) < 40 {
